@@ -855,12 +855,31 @@ fn gen_limit_text(rng: &mut Rng) -> Text {
 }
 
 fn sink_rule() -> &'static str {
-    "real tokenizer (StatefulTokenizer) x plugin stacks {any sub-sequence / some reorderings of NFKC+lower-casing+rewrite table, prolonged-sound-mark collapsing, yomigana deletion} x OOV {simple; mecab+simple; mecab+regex+simple} x path rewriting {none, numeric, katakana, both} x dictionaries {shipped system+user; generated system; generated system + generated user dictionary referring to it; generated entries may have a display form that differs from their key, and A/B split declarations that spell the word exactly, spell only a prefix of it, or name a unit of another length (all cuts on character boundaries)} x modes A/B/C x requested field subsets {all, POS only, none, random} x inputs mixing dictionary words, NFKC-expanding characters (U+FDFA, ㍿, ㌔, half-width kana + marks), yomigana brackets, prolonged marks, numerals, katakana, combining marks, 4-byte characters, empty input. Every case: the path in rewritten-text coordinates, the offset map and everything Morpheme reports. Further classes: texts in which almost every segment is rewritten by some input-text plugin (later plugins edit behind length-changing earlier ones); on-demand Morpheme::split_into of every morpheme of a mode-C result; sessions of 3..8 inputs (1/4 empty, optional switches of mode and field subset in either order, occasionally an input beyond the limits) on ONE tokenizer and ONE MorphemeList through collect_results; inputs around the 49149 / 65535 byte limits (rejected, or accepted and checked). A panic of begin/end/begin_c/end_c/surface after a successful tokenization counts as a failure. non-trivial = offset map is not the identity and more than one morpheme, distinct Coq term"
+    "real tokenizer (StatefulTokenizer) x plugin stacks {any sub-sequence / some reorderings of NFKC+lower-casing+rewrite table, prolonged-sound-mark collapsing, yomigana deletion} x OOV {simple; mecab+simple; mecab+regex+simple} x path rewriting {none, numeric, katakana, both} x dictionaries {shipped system+user; generated system; generated system + generated user dictionary referring to it; generated entries may have a display form that differs from their key, and A/B split declarations that spell the word exactly, spell only a prefix of it, or name a unit of another length (all cuts on character boundaries)} x modes A/B/C x requested field subsets {all, POS only, none, random} x inputs mixing dictionary words, NFKC-expanding characters (U+FDFA, ㍿, ㌔, half-width kana + marks), yomigana brackets, prolonged marks, numerals, katakana, combining marks, 4-byte characters, empty input. Every case: the path in rewritten-text coordinates, the offset map and everything Morpheme reports. Further classes: texts in which almost every segment is rewritten by some input-text plugin (later plugins edit behind length-changing earlier ones); on-demand Morpheme::split_into of every morpheme of a mode-C result; sessions of 3..8 inputs (1/4 empty, optional switches of mode and field subset in either order, occasionally an input beyond the limits) on ONE tokenizer and ONE MorphemeList through collect_results; inputs around the 49149 / 65535 byte limits (rejected, or accepted and checked). A panic of begin/end/begin_c/end_c/surface after a successful tokenization counts as a failure. END-TO-END stream (C01): the composed Gallina tokenizer (Model/Tokenizer.v tokenize_model: plugins -> lattice from dictionary lookup + OOV providers -> Viterbi -> path rewriting -> split -> Morpheme accessors) is run on the same dictionary bytes / word tables / character classes / matrix / settings for small generated dictionaries (system, sometimes + user), texts <= 12 characters, plugins {none, PSM}, OOV {simple, mecab+simple}, all rewrite configurations, modes A/B/C, and must report the same byte ranges and word ids. non-trivial = offset map is not the identity and more than one morpheme, distinct Coq term"
 }
 
 fn replay(sink: &mut Sink, p: &std::path::Path) {
     let v: Value = serde_json::from_str(&std::fs::read_to_string(p).unwrap()).unwrap();
     let c = &v["case"];
+    if c["kind"] == "c01-e2e" {
+        let st = Stack {
+            input: c["stack"]["input"].as_array().unwrap().iter().map(|x| x.as_u64().unwrap() as u8).collect(),
+            oov: c["stack"]["oov"].as_u64().unwrap() as u8,
+            rewrite: c["stack"]["rewrite"].as_u64().unwrap() as u8,
+        };
+        let csv = c["csv"].as_str().unwrap();
+        let ucsv = c["user_csv"].as_str();
+        println!("system dictionary rows:\n{}", csv);
+        if let Some(u) = ucsv {
+            println!("user dictionary rows:\n{}", u);
+        }
+        println!("configuration: {}", stack_json(&st));
+        let (dict, lex_hex, nwords) = e2e_dict(csv, ucsv, &st).expect("dictionary");
+        let text = c["text"].as_str().unwrap();
+        let mode = mode_from(&c["mode"]);
+        e2e_case(sink, &dict, &lex_hex, &nwords, &st, text, mode, e2e_desc(csv, ucsv, &st, text, mode), true);
+        return;
+    }
     let st = Stack {
         input: c["stack"]["input"].as_array().unwrap().iter().map(|x| x.as_u64().unwrap() as u8).collect(),
         oov: c["stack"]["oov"].as_u64().unwrap() as u8,
@@ -1036,7 +1055,7 @@ pub fn pipeline(which: Prop, sink: &mut Sink, args: &Args, rng: &mut Rng) {
 }
 
 pub fn run(args: &Args) {
-    let mut sink = Sink::new("C01", &args.out, &["Model.Buffer"], args.seed, &args.tier);
+    let mut sink = Sink::new("C01", &args.out, &["Model.Buffer", "Model.Tokenizer"], args.seed, &args.tier);
     sink.rule(sink_rule());
     if let Some(p) = &args.replay {
         if is_py_case(p) {
@@ -1050,6 +1069,253 @@ pub fn run(args: &Args) {
     }
     let mut rng = Rng::new(args.seed);
     pipeline(Prop::C01, &mut sink, args, &mut rng);
+    e2e_stream(&mut sink, args, &mut rng);
     crate::c01py::run(&mut sink, args, &mut rng);
     sink.finish();
+}
+
+// ================================================================== end-to-end correspondence (Model/Tokenizer.v)
+// The composed Gallina model `tokenize_model` is run on the same dictionary bytes (trie + word-id table sections),
+// word parameters / word infos, character classes, connection matrix and plugin settings as the real tokenizer and must
+// answer with the same morphemes.  Scope: small generated dictionaries (system, optionally + user), texts of at most 12
+// characters, input-text plugins {none, prolonged-sound-mark collapsing}, OOV {simple; mecab + simple}, every path-rewrite
+// configuration, modes A/B/C.  (DefaultInputTextPlugin / yomigana need the oracle tables of C07's own correspondence.)
+use sudachi::dic::word_id::WordId;
+
+fn cps_term(s: &str) -> String {
+    clist(s.chars().map(|c| cn(c as u32)))
+}
+
+/// a small system dictionary: base words (some katakana, digits with the numeral part of speech) and compounds with A/B splits
+fn e2e_csv(rng: &mut Rng) -> (String, Vec<String>) {
+    let pool = ["東京", "都", "に", "行", "く", "キロ", "アイ", "ab", "c", "大学", "ー", "さ", "府", "é"];
+    let digits = ["1", "2", "0", "〇", "一", "二"];
+    let mut rows: Vec<String> = vec![];
+    let mut base: Vec<(usize, String)> = vec![];
+    let mut words = vec![];
+    let noun = "名詞,普通名詞,一般,*,*,*";
+    let num = "名詞,数詞,*,*,*,*";
+    let push = |rows: &mut Vec<String>, key: &str, pos: &str, cost: i64, l: u64, r: u64, mode: &str, a: &str, b: &str, norm: &str| {
+        rows.push(format!("{k},{l},{r},{c},{k},{p},ヨミ,{n},*,{m},{a},{b},*,*", k = key, l = l, r = r, c = cost, p = pos, n = norm, m = mode, a = a, b = b));
+    };
+    // numerals first (the numeral part of speech must exist for JoinNumeric)
+    for d in digits.iter().take(2 + rng.below(4) as usize) {
+        push(&mut rows, d, num, 2000 + rng.below(1000) as i64, 9, 9, "A", "*", "*", d);
+        words.push(d.to_string());
+    }
+    for _ in 0..3 + rng.below(5) {
+        let w = *rng.pick(&pool);
+        if base.iter().any(|(_, x)| x == w) {
+            continue;
+        }
+        base.push((rows.len(), w.to_string()));
+        let (cost, l, r) = (1000 + rng.below(5000) as i64, rng.below(9), rng.below(9));
+        push(&mut rows, w, noun, cost, l, r, "A", "*", "*", w);
+        // homographs with identical parameters: equal path costs, the first inserted node must win
+        if rng.chance(1, 3) {
+            push(&mut rows, w, noun, cost, l, r, "A", "*", "*", w);
+        }
+        words.push(w.to_string());
+    }
+    for _ in 0..1 + rng.below(3) {
+        let (surface, units, _) = gen_compound(rng, &base);
+        if words.iter().any(|w| *w == surface) {
+            continue;
+        }
+        let a = units.iter().map(|u| u.to_string()).collect::<Vec<_>>().join("/");
+        let b = if rng.chance(1, 2) { a.clone() } else { "*".to_string() };
+        push(&mut rows, &surface, noun, rng.below(3000) as i64, rng.below(9), rng.below(9), "C", &a, &b, &surface);
+        words.push(surface);
+    }
+    (rows.join("\n"), words)
+}
+
+fn e2e_text(rng: &mut Rng, words: &[String]) -> String {
+    let extra = ["ーー", "アイウ", "カ", "12", "1,2", "x", "に", " ", "ーーー", "キロメ", "\u{301}", "\u{3099}", "\u{301}"];
+    loop {
+        let mut s = String::new();
+        for _ in 0..1 + rng.below(4) {
+            if rng.chance(2, 3) {
+                s.push_str(rng.pick(words).as_str());
+            } else {
+                s.push_str(*rng.pick(&extra));
+            }
+        }
+        if s.chars().count() <= 12 {
+            return s;
+        }
+    }
+}
+
+fn e2e_case(sink: &mut Sink, dict: &JapaneseDictionary, lex_hex: &[(String, String)], nwords: &[u32], st: &Stack, text: &str, mode: u8, d: Value, verbose: bool) {
+    let g = dict.grammar();
+    let lex = dict.lexicon();
+    // the real tokenizer
+    let implr = catch(|| {
+        let mut tok = StatefulTokenizer::new(dict, mode_of(mode));
+        tok.reset().push_str(text);
+        if tok.do_tokenize().is_err() {
+            return None;
+        }
+        let cur = tok.verif_input().current().to_string();
+        let ml = tok.into_morpheme_list().ok()?;
+        Some((cur, ml.iter().map(|m| (m.begin(), m.end(), m.word_id().as_raw())).collect::<Vec<_>>()))
+    });
+    let implr = match implr {
+        Ok(x) => x,
+        Err(p) => {
+            if verbose {
+                println!("analysis panicked: {}", p);
+            }
+            sink.tag("analysis_panicked(not C01/C08)");
+            sink.case_rust_only(d, false);
+            return;
+        }
+    };
+    // tables of the model tokenizer
+    let mut ids: Vec<u32> = vec![];
+    for (dic, n) in nwords.iter().enumerate() {
+        for i in 0..*n {
+            ids.push(((dic as u32) << 28) | i);
+        }
+    }
+    let pos_noun = g.get_part_of_speech_id(&["名詞", "普通名詞", "一般", "*", "*", "*"]).unwrap_or(0);
+    let pos_num = g.get_part_of_speech_id(&["名詞", "数詞", "*", "*", "*", "*"]).unwrap_or(0);
+    let mut params = vec![];
+    let mut winfos = vec![];
+    let mut hw = vec![];
+    let mut ua = vec![];
+    let mut ub = vec![];
+    for raw in &ids {
+        let wid = WordId::from_raw(*raw);
+        let (l, r, c) = lex.get_word_param(wid);
+        params.push(format!("({}, ({}, {}, {}))", cn(*raw), cn(l as u16), cn(r as u16), cz(c as i64)));
+        let wi = lex.get_word_info(wid).expect("word info");
+        winfos.push(format!("({}, mkWI {} {} [] [] {})", cn(*raw), cps_term(wi.surface()), cps_term(wi.normalized_form()), cn(wi.pos_id())));
+        hw.push(format!("({}, {})", cn(*raw), cnu(wi.head_word_length())));
+        ua.push(format!("({}, {})", cn(*raw), clist(wi.a_unit_split().iter().map(|w| cn(w.as_raw())))));
+        ub.push(format!("({}, {})", cn(*raw), clist(wi.b_unit_split().iter().map(|w| cn(w.as_raw())))));
+    }
+    let cur = implr.as_ref().map(|x| x.0.clone()).unwrap_or_default();
+    let mut chars: Vec<char> = text.chars().chain(cur.chars()).chain("ー".chars()).collect();
+    chars.sort();
+    chars.dedup();
+    let cats = clist(chars.iter().map(|c| format!("({}, {})", cn(*c as u32), cn(g.character_category.get_category_types(*c).bits()))));
+    let pls = clist(st.input.iter().map(|k| {
+        assert!(*k == 1);
+        format!("PD_psm {} {}", cps_term("ー-⁓〜〰"), cps_term("ー"))
+    }));
+    let simple = format!("O.PSimple (O.mkOov 8 8 6000 {})", cn(pos_noun));
+    let provs = if st.oov == 0 {
+        format!("[{}]", simple)
+    } else {
+        // char.def of the test resources: DEFAULT 0 1 0, ALPHA 1 1 0; unk2.def: DEFAULT -> 補助記号,一般  ALPHA -> 名詞,普通名詞,一般
+        let pos_sym = g.get_part_of_speech_id(&["補助記号", "一般", "*", "*", "*", "*"]).unwrap_or(0);
+        format!(
+            "[O.PMecab (O.mkMecab [O.mkCI 1 false true 0%nat; O.mkCI 32 true true 0%nat] [(1%N, [O.mkOov 7 7 3857 {}]); (32%N, [O.mkOov 7 7 11633 {}])]); {}]",
+            cn(pos_sym),
+            cn(pos_noun),
+            simple
+        )
+    };
+    let conn = clist((0..10u16).map(|l| clist((0..10u16).map(|r| cz(g.conn_matrix().cost(l, r) as i64)))));
+    let num = |n: bool| format!("Rw.PNumeric {} {}", cbool(n), cn(pos_num));
+    let kat = |m: usize| format!("Rw.PKatakana {}%nat {}", m, cn(pos_noun));
+    let rw = match st.rewrite {
+        0 => "[]".to_string(),
+        1 => format!("[{}]", num(true)),
+        2 => format!("[{}]", kat(3)),
+        3 => format!("[{}; {}]", num(false), kat(1)),
+        _ => format!("[{}; {}]", num(true), kat(3)),
+    };
+    let tk = format!(
+        "(mk_tokenizer {} {} {} {} {} {} {} {} Sp.Mode{} {} {} {})",
+        pls,
+        cats,
+        clist(lex_hex.iter().map(|(a, b)| format!("(\"{}\"%string, \"{}\"%string)", a, b))),
+        clist(params),
+        clist(winfos),
+        provs,
+        conn,
+        rw,
+        MODE_NAMES[mode as usize],
+        clist(hw),
+        clist(ua),
+        clist(ub)
+    );
+    let impl_term = copt(implr.as_ref().map(|x| clist(x.1.iter().map(|(b, e, w)| format!("({}, {}, {})", cnu(*b), cnu(*e), cn(*w))))));
+    let term = format!("check_end_to_end {} {} {}", tk, cps_term(text), impl_term);
+    if verbose {
+        println!("input {:?} mode {}: implementation reports {:?}", text, MODE_NAMES[mode as usize], implr.as_ref().map(|x| &x.1));
+    }
+    sink.tag("end_to_end_model_case");
+    sink.tag(&format!("e2e_mode={}", MODE_NAMES[mode as usize]));
+    if implr.as_ref().map_or(false, |x| x.0 != text) {
+        sink.tag("e2e_text_rewritten");
+    }
+    sink.case(term, d, implr.as_ref().map_or(false, |x| x.1.len() > 1));
+}
+
+/// dictionary of an end-to-end case, rebuilt from its description
+fn e2e_dict(csv: &str, user_csv: Option<&str>, st: &Stack) -> Result<(JapaneseDictionary, Vec<(String, String)>, Vec<u32>), String> {
+    let sys = crate::c04::build_system(csv)?;
+    let (trie, tbl) = crate::c04::sections(&sys, true);
+    let mut lex_hex = vec![(crate::c04::hexz(&trie), crate::c04::hex(&tbl))];
+    let mut nwords = vec![csv.lines().count() as u32];
+    let user = match user_csv {
+        Some(u) => {
+            let ub = crate::c04::build_user_bare(&sys, u)?;
+            let (t2, w2) = crate::c04::sections(&ub, false);
+            lex_hex.push((crate::c04::hexz(&t2), crate::c04::hex(&w2)));
+            nwords.push(u.lines().count() as u32);
+            Some(ub)
+        }
+        None => None,
+    };
+    let bd = BuiltDict { system: sys, user, words: vec![], flavours: vec![] };
+    let dict = load(&bd, st)?;
+    Ok((dict, lex_hex, nwords))
+}
+
+fn e2e_desc(csv: &str, user_csv: Option<&str>, st: &Stack, text: &str, mode: u8) -> Value {
+    json!({"kind": "c01-e2e", "csv": csv, "user_csv": user_csv, "text": text, "mode": MODE_NAMES[mode as usize],
+           "stack": {"input": st.input, "oov": st.oov, "rewrite": st.rewrite}})
+}
+
+fn e2e_stream(sink: &mut Sink, args: &Args, rng: &mut Rng) {
+    for _ in 0..args.n(14, 120) {
+        let (csv, mut words) = e2e_csv(rng);
+        // sometimes a user dictionary: a user word and a user compound referring to a system word (by row number) and to it
+        let tokyo = csv.lines().position(|l| l.starts_with("東京,"));
+        let user_csv = match tokyo {
+            Some(k) if rng.chance(1, 2) => {
+                let u0 = "ユーザ".to_string();
+                let comp = format!("東京{}", u0);
+                words.push(u0.clone());
+                words.push(comp.clone());
+                Some(format!(
+                    "{u},3,3,500,{u},名詞,普通名詞,一般,*,*,*,ヨミ,{u},*,A,*,*,*,*\n{c},3,3,-200,{c},名詞,普通名詞,一般,*,*,*,ヨミ,{c},*,C,{k}/U0,{k}/U0,*,*",
+                    u = u0,
+                    c = comp,
+                    k = k
+                ))
+            }
+            _ => None,
+        };
+        let st = Stack { input: if rng.chance(1, 2) { vec![1] } else { vec![] }, oov: rng.below(2) as u8, rewrite: rng.below(5) as u8 };
+        let (dict, lex_hex, nwords) = match e2e_dict(&csv, user_csv.as_deref(), &st) {
+            Ok(x) => x,
+            Err(e) => {
+                sink.tag("e2e_dictionary_rejected");
+                eprintln!("end-to-end dictionary not built: {}", e);
+                continue;
+            }
+        };
+        for _ in 0..args.n(3, 6) {
+            let text = e2e_text(rng, &words);
+            for mode in 0..3u8 {
+                e2e_case(sink, &dict, &lex_hex, &nwords, &st, &text, mode, e2e_desc(&csv, user_csv.as_deref(), &st, &text, mode), false);
+            }
+        }
+    }
 }
